@@ -112,7 +112,7 @@ func newFold(t *Tree) *foldState {
 	f.exp = &Expect{Vals: map[int]string{}, Called: map[int]bool{}, CalledAs: map[int]string{}, Remaining: []string{}}
 	for _, o := range t.AllOpts() {
 		f.cur[o.ID] = defaultVal(o)
-		if o.SetCalled {
+		if o.SetCalled || o.SetCalledFirst {
 			f.exp.Called[o.ID] = true
 		}
 		if o.Env != "" && o.EnvSet && o.EnvVal != "" {
